@@ -53,12 +53,22 @@ impl Timer {
     ///
     /// The result is cached.
     pub fn precision(self) -> FineDuration {
+        #[cfg(divan_verif)]
+        if let Some(precision) = crate::__verif::precision_override() {
+            return precision;
+        }
+
         static CACHED: [OnceLock<FineDuration>; Timer::COUNT] =
             [OnceLock::new(), OnceLock::new()];
 
         let cached = &CACHED[self.kind() as usize];
 
         *cached.get_or_init(|| self.measure_precision())
+    }
+
+    #[cfg(divan_verif)]
+    pub(crate) fn measure_precision_verif(self) -> FineDuration {
+        self.measure_precision()
     }
 
     fn measure_precision(self) -> FineDuration {
@@ -140,6 +150,11 @@ impl Timer {
     ///
     /// `min_time` and `max_time` do not consider this as benchmarking time.
     pub fn bench_overheads(self) -> &'static TimedOverhead {
+        #[cfg(divan_verif)]
+        if let Some(overhead) = crate::__verif::overhead_override() {
+            return overhead;
+        }
+
         // Miri is slow, so don't waste time on this.
         if cfg!(miri) {
             return &TimedOverhead::ZERO;
